@@ -124,7 +124,13 @@ func run(raw json.RawMessage) (hx.Case, error) {
 	if err := hx.UJ(raw, &in); err != nil {
 		return hx.Case{}, err
 	}
-	dir, err := os.MkdirTemp("", "verif-c36-")
+	// a memory-backed directory when there is one: the file is a real SQLite
+	// database either way, but every case creates, syncs and deletes one
+	tmpRoot := ""
+	if st, e := os.Stat("/dev/shm"); e == nil && st.IsDir() {
+		tmpRoot = "/dev/shm"
+	}
+	dir, err := os.MkdirTemp(tmpRoot, "verif-c36-")
 	if err != nil {
 		return hx.Case{}, err
 	}
